@@ -117,6 +117,7 @@ static void diffJson(const json &exp, const json &act, const std::string &path, 
 // topics that belong to it (plan.topics; absent = all).
 struct Restrict {
     bool allObs = true, allState = true, allTopics = true;
+    bool maskByHas = false; // C03: labels are judged only for pairs on whose edge-ness both sides agree
     std::vector<std::string> obs, state, topics;
     explicit Restrict(const json &plan) {
         if (plan.contains("obs_fields")) {
@@ -131,6 +132,28 @@ struct Restrict {
             allTopics = false;
             topics = plan.at("topics").get<std::vector<std::string>>();
         }
+        maskByHas = plan.value("mask_by_has", false);
+    }
+    // where expected and actual disagree on whether (i,j) is an edge - some other property's
+    // business - the label observers of that pair are not compared
+    void mask(const json &expFull, const json &actFull, json &expObs, json &actObs) const {
+        if (!maskByHas || !expFull.contains("has") || !actFull.contains("has"))
+            return;
+        const json &eh = expFull["has"], &ah = actFull["has"];
+        if (eh.size() != ah.size())
+            return;
+        if (expObs.contains("has") && actObs.contains("has"))
+            actObs["has"] = expObs["has"]; // (which pairs are edges is not this check's subject)
+        for (size_t i = 0; i < eh.size(); ++i)
+            for (size_t j = 0; j < eh[i].size(); ++j)
+                if (eh[i][j] != ah[i][j]) {
+                    for (const char *f : {"lab", "labd"})
+                        if (expObs.contains(f) && actObs.contains(f))
+                            actObs[f][i][j] = expObs[f][i][j];
+                    if (expObs.contains("hasl") && actObs.contains("hasl"))
+                        for (size_t l = 0; l < expObs["hasl"].size(); ++l)
+                            actObs["hasl"][l][i][j] = expObs["hasl"][l][i][j];
+                }
     }
     json pick(const json &o, bool all, const std::vector<std::string> &fields) const {
         json r = json::object();
@@ -266,9 +289,12 @@ static int walk(const json &plan) {
                 std::unique_ptr<IObj> o = rep.objs[fam]->clone();
                 json before = (expOut != "ok") ? o->exact() : json();
                 std::string out = o->apply(call);
-                json obs = rs.ofObs(o->project());
+                const json fullObs = o->project();
+                json obs = rs.ofObs(fullObs);
                 json enc = rs.ofState(o->enc());
-                const json expObs = rs.ofObs(tr.at("obs")), expEnc = rs.ofState(tr.at("to"));
+                json expObs = rs.ofObs(tr.at("obs"));
+                const json expEnc = rs.ofState(tr.at("to"));
+                rs.mask(tr.at("obs"), fullObs, expObs, obs);
                 std::string why;
                 if (!checkValid && expOut == "ok")
                     ; // a valid call in a rejected-calls scenario: executed to reach the next state only
